@@ -66,6 +66,10 @@ def searchsorted(a, v, side="left", sorter=None):
         # each block's insertion points are shifted by the block's offset in a
         raise ValueError(f"Array chunk sizes are unknown. shape: {a.shape}, chunks: {a.chunks}{unknown_chunk_message}")
 
+    # the per-block offsets below are literals of a's current layout: pin it,
+    # so a rewrite of a onto other chunks cannot leave the two out of step
+    a = a.freeze_chunks()
+
     # call np.searchsorted for each pair of blocks in a and v
     meta = np.searchsorted(a._meta, v._meta)
     out = blockwise(
